@@ -38,7 +38,6 @@
 #include <iostream>
 #include <iomanip>
 #include <typeinfo>
-#include <type_traits>
 
 #include "soplex/spxdefines.h"
 #include "soplex/basevectors.h"
@@ -1873,8 +1872,7 @@ public:
       SVectorBase<R>& row = rowVector_w(i);
       SVectorBase<R>& col = colVector_w(j);
 
-      // rational data is exact: only an exact zero removes the element
-      if(std::is_same<R, Rational>::value ? (val != 0) : isNotZero(val, this->tolerances()->epsilon()))
+      if(isNotZero(val, this->tolerances()->epsilon()))
       {
          R newVal;
 
@@ -1917,8 +1915,7 @@ public:
       SVectorBase<R>& row = rowVector_w(i);
       SVectorBase<R>& col = colVector_w(j);
 
-      // test the exact value: a tiny rational must not be treated as zero
-      if(mpq_sgn(*val) != 0)
+      if(mpq_get_d(*val) != R(0))
       {
          if(row.pos(j) >= 0 && col.pos(i) >= 0)
          {
